@@ -367,3 +367,61 @@ func VerifH14dHealthCheckedOutage() {
 	verifrt.AdvanceTime(failTimeout + time.Second)
 	verifrt.Observe("outage", nDown, nUp)
 }
+
+// VerifH14eStaggeredFailures: failures recorded at different moments expire one by one, each
+// fail_timeout after it was recorded: the count at any time is the number of failures younger than
+// fail_timeout, and the backend is down exactly while that number reaches max_fails.
+func VerifH14eStaggeredFailures() {
+	verifrt.Budget(2000000)
+	verifrt.Concurrent(0)
+	// virtual seconds under the engine; natively (only when a counterexample is confirmed) real time
+	// scaled 1:20, with every check at least one virtual second away from any expiry
+	unit := time.Second
+	advance := verifrt.AdvanceTime
+	if !verifrt.Symbolic() {
+		unit = 50 * time.Millisecond
+		advance = time.Sleep
+	}
+	failTimeout := 10 * unit
+	maxFails := int32(verifrt.IntRange("max_fails", 1, 3))
+	u := &staticUpstream{from: "/", MaxFails: maxFails, FailTimeout: failTimeout}
+	h, err := u.NewHost("http://backend")
+	if err != nil {
+		verifrt.Fail("newhost")
+		return
+	}
+	h.ReverseProxy.Transport = &zzScriptedRT{fail: true}
+	h.ReverseProxy.FlushInterval = 0
+	u.Hosts = HostPool{h}
+	p := Proxy{Upstreams: []Upstream{u}}
+	// up to three failing requests, 4 s or 7 s apart; a request is only forwarded while the backend is up
+	now := time.Duration(0)
+	var recorded []time.Duration
+	check := func() {
+		alive := 0
+		for _, t := range recorded {
+			if now-t < failTimeout {
+				alive++
+			}
+		}
+		verifrt.Assert(int(atomic.LoadInt32(&h.Fails)) == alive, "count-is-the-number-of-unexpired-failures")
+		verifrt.Assert(h.Available() == (alive < int(maxFails)), "down-exactly-while-max-fails-unexpired-failures")
+	}
+	nreq := verifrt.IntRange("requests", 1, 3)
+	for i := 0; i < nreq; i++ {
+		if h.Available() {
+			r := &http.Request{Method: "GET", URL: &url.URL{Path: "/"}, Header: http.Header{}, Host: "site", RemoteAddr: "1.2.3.4:5"}
+			p.ServeHTTP(&zzW14{}, r)
+			recorded = append(recorded, now)
+		}
+		verifrt.DrainGoroutines()
+		check()
+		step := []time.Duration{4 * unit, 7 * unit}[verifrt.Choose("gap", 2)]
+		advance(step)
+		now += step
+		check()
+	}
+	advance(failTimeout + unit)
+	now += failTimeout + unit
+	check()
+}
